@@ -13,6 +13,8 @@ import (
 	"encoding/json"
 	"fmt"
 	"os"
+	"runtime"
+	"runtime/pprof"
 	"sort"
 	"strings"
 	"time"
@@ -136,7 +138,15 @@ func outcomeKey(c Case, r Result) string {
 
 func main() {
 	if evid.IsWorker() {
+		// one P per worker: 16 workers share the machine; the quiescence barrier (a stop-the-world stack
+		// dump per call) is 10-20 times cheaper this way and executions become more deterministic
+		runtime.GOMAXPROCS(1)
 		sysx.HangLimit = 20 * time.Second
+		if pf := os.Getenv("C11_PROF"); pf != "" {
+			f, _ := os.Create(pf)
+			pprof.StartCPUProfile(f) //nolint:errcheck
+			evid.ServeWorker(func(raw json.RawMessage) any { r := worker(raw); pprof.StopCPUProfile(); f.Close(); return r })
+		}
 		evid.ServeWorker(worker)
 	}
 	run := evid.New("C11", "fault_enumeration")
@@ -206,6 +216,9 @@ func main() {
 	} else {
 		cfgs = []Cfg{baseCfg, {Handlers: "all", UDP: false, Second: true}, {Handlers: "describeonly", UDP: true}}
 	}
+	if os.Getenv("C11_ONLYCFG") == "tls" {
+		cfgs = []Cfg{{Handlers: "all", UDP: true, TLS: true}}
+	}
 	var cases []Case
 	counts := map[string]int{}
 	addCase := func(kind string, c Case) {
@@ -251,13 +264,25 @@ func main() {
 			// quick: every offset, the two endings alternate with the offset parity
 			for _, d := range truncDevs(cn, []string{"close"}, 1) {
 				if d.Pos%2 == 1 {
-					d.Val, d.Class = "silent", "truncate-at-offset-then-silent"
+					d.Val, d.Class = "silent", strings.TrimSuffix(d.Class, "close")+"silent"
 				}
 				addCase("truncate", Case{Conv: cn, Devs: []Dev{d}, Cfg: c})
 			}
 		}
 	}
 	run.Set("cases_by_kind_round1", counts)
+	if os.Getenv("C11_VERBOSE") != "" {
+		fmt.Fprintf(os.Stderr, "round 1: %d cases %v\n", len(cases), counts)
+	}
+	if n := os.Getenv("C11_LIMIT"); n != "" {
+		var k int
+		fmt.Sscan(n, &k)
+		var sub []Case
+		for i := 0; i < len(cases); i += max(1, len(cases)/k) {
+			sub = append(sub, cases[i])
+		}
+		cases = sub
+	}
 	run.Set("configurations", fmt.Sprint(cfgs))
 
 	type vio struct {
